@@ -20,8 +20,9 @@ import numpy as np
 
 EPS10 = Fraction(1.0e-10)
 EPS6 = Fraction(1.0e-6)
-ERR = {'E_SHAPE': 1, 'E_Q1': 2, 'E_QDIFF': 3, 'E_FOLD': 4, 'E_EMPTY': 5, 'E_INDEX': 6, 'E_NOGENES': 7,
-       'E_NOUP': 8, 'E_NODOWN': 9}
+ERR = {'E_SHAPE': 1, 'E_Q1': 2, 'E_QDIFF': 3, 'E_FOLD': 4, 'E_EMPTY': 5, 'E_INDEX': 6, 'E_NOGENES': 7}
+# F8 and F13 (= finding F17) are REPAIRED defects (known_findings.json: kind "fixed", suppresses nothing): the
+# class strings stay so that a regression is reported under the name of the finding
 F8 = 'F8-floor-within-1e-5-of-strict-threshold'
 F12 = 'F12-mask-route-records-pair-with-one-cell-cluster'
 F13 = 'F13-no-marker-in-one-direction-raises'
@@ -792,10 +793,11 @@ def e2e_cases(ctx):
             ctx.dist('main_route_workers', w)
             corr, prop, cls = [], [], None
             if o is None:
-                exp = {8: 'nochunk', 9: 'nochunk'}.get(r[1], r[1]) if r[0] == 1 else None
+                exp = r[1] if r[0] == 1 else None
                 if not skip and (r[0] != 1 or exp != err):
                     corr.append(f'implementation raised {err}, model {r[:2]}')
                 if err == 'nochunk':
+                    # (regression of F17) a zero-size HDF5 chunk: the run aborts because one direction has no marker;
                     # markers of the other direction (or strictly passing genes) are lost with the run
                     lost = []
                     for (a, b), pi in zip(pairs, pis):
@@ -813,6 +815,9 @@ def e2e_cases(ctx):
                     prop.append('output depends on the worker count / memory budget')
                 up_rows = rows_of(o['sparse_by_pair/up_pair_idx'], o['sparse_by_pair/up_gene_idx'])
                 dn_rows = rows_of(o['sparse_by_pair/down_pair_idx'], o['sparse_by_pair/down_gene_idx'])
+                n_up, n_dn = len(o['sparse_by_pair/up_gene_idx']), len(o['sparse_by_pair/down_gene_idx'])
+                ctx.dist('main_route_directions', 'no-marker-at-all' if n_up + n_dn == 0 else
+                         ('no-up-marker' if n_up == 0 else ('no-down-marker' if n_dn == 0 else 'both-directions')))
                 if not skip:
                     if r[0] != 0:
                         corr.append(f'implementation wrote a file, model raises {r[:2]}')
@@ -920,8 +925,11 @@ def e2e_cases(ctx):
             ctx.dist('mask_file', 'near-tie-skipped' if skip else ('ok' if err is None else f'error-{err}'))
             corr, prop, cls = [], [], None
             if err is not None:
-                if not (err == 'nochunk' and total == 0) and not skip:
+                if not skip:
                     corr.append(f'mask creation raised {err}; the model has {total} entries')
+                if err == 'nochunk' and total == 0:
+                    # (regression of F17, _merge_masks) no gene passes for any pair: the empty mask is well defined
+                    ctx.dist('mask_file_nochunk', 'empty-mask')
             else:
                 if mk['dtype'] != 'float16' or len(mk['indptr']) != len(pairs) + 1:
                     prop.append('mask file: wrong data type / number of rows')
@@ -986,10 +994,21 @@ def e2e_cases(ctx):
                     ctx.dist('mask_route', 'ok' if o is not None else f'error-{err2}')
                     corr, prop, cls = [], [], None
                     if o is None:
-                        exp = {8: 'nochunk', 9: 'nochunk'}.get(r[1], r[1]) if r[0] == 1 else None
+                        exp = r[1] if r[0] == 1 else None
                         if r[0] != 1 or exp != err2:
                             corr.append(f'implementation raised {err2}, model {r[:2]}')
+                        if err2 == 'nochunk':
+                            # (regression of F17) the markers present in the mask file are lost with the run
+                            lost = [(a, b, g) for (a, b), row in zip(pairs, mp) for g, v in row[0]
+                                    if v < 0 and gene_ok[g]]
+                            if lost:
+                                prop.append(f'mask route raised "{err2}" (no marker in one direction): strictly valid listed '
+                                            f'(pair, gene) {lost[:4]} of the mask file are not recorded')
+                                cls = F13
                     else:
+                        n_up, n_dn = len(o['sparse_by_pair/up_gene_idx']), len(o['sparse_by_pair/down_gene_idx'])
+                        ctx.dist('mask_route_directions', 'no-marker-at-all' if n_up + n_dn == 0 else
+                                 ('no-up-marker' if n_up == 0 else ('no-down-marker' if n_dn == 0 else 'both-directions')))
                         if first2 is None:
                             first2 = o
                         elif o != first2:
@@ -1041,8 +1060,9 @@ def run(ctx):
     ctx.assumptions += [
         'raw Welch p-values, q1/qdiff/log2-fold scores and means are model INPUTS taken from the implementation\'s own '
         'routines (welch_t_test, pij_from_stats, q_score_from_pij, read_precomputed_stats)',
-        'soundness w.r.t. the floors needs each strict threshold at least 1e-5 above its floor ((th-min)^2 >= 1e-10): '
-        'closer settings are generated and reported as the known finding F8',
+        'threshold settings: every setting with each strict threshold above its floor, including floors within '
+        '2^-16..2^-20 of the threshold (the settings of the repaired finding F8; no distance between threshold and floor '
+        'is assumed any more)',
         'floors are >= 0 so that genes outside the gene list (scored q1 = -1, qdiff = 0, fold = -1) lie below a floor',
         'p_th in [1e-11, 1] (boring_t_from_p_value rejects smaller values)',
         'decisions of the float code whose exact counterpart is within 1e-9 (relative) of flipping (p*m next to p_th, a '
@@ -1050,8 +1070,8 @@ def run(ctx):
         'p-value-mask route: a chunk of exactly one pair makes the worker raise (np.diff of one index) - an error, not an '
         'unsound output: taxonomies with n_pairs % n_per == 1 are not run on that route; n_valid <= number of genes there '
         '(otherwise _get_validity_mask raises IndexError, covered by the function-level tie); gene lists overlap the genes',
-        'a run in which no gene is recorded in one direction for any pair raises ValueError (zero-size HDF5 chunk): modelled '
-        'as an error; reported as known finding F13 when recorded / strictly passing markers are lost with it',
+        'statistics in which no gene is recorded in one direction (or in either) for any pair are generated and must '
+        'give a marker file with an empty gene_idx array (repaired finding F17; formerly a ValueError modelled as an error)',
     ]
     holm_cases(ctx)
     penetrance_cases(ctx)
